@@ -77,7 +77,7 @@ Sigs ==
     \cup {Sig("ite", <<"B", "I", "I">>, NoP), Sig("ite", <<"B", "R", "R">>, NoP),
           Sig("ite", <<"B", "S", "S">>, NoP), Sig("ite", <<"B", "AII", "AII">>, NoP)}
     \cup {Sig("toreal", <<"I">>, NoP)}
-    \cup {Sig("pow", <<"I">>, {<<0>>, <<1>>, <<2>>, <<3>>}), Sig("pow", <<"R">>, {<<0>>, <<2>>, <<-1>>, <<-2>>})}
+    \cup {Sig("pow", <<"I">>, {<<0>>, <<1>>, <<2>>, <<3>>, <<-1>>, <<-2>>}), Sig("pow", <<"R">>, {<<0>>, <<2>>, <<-1>>, <<-2>>})}
     \cup BVSigs("V2", 2) \cup BVSigs("V3", 3) \cup BVSigs("V1", 1)
     \cup {Sig("bv_concat", <<"V2", "V3">>, NoP), Sig("bv_concat", <<"V1", "V2">>, NoP),
           Sig("bv_concat", <<"V2", "V2">>, NoP)}
